@@ -292,6 +292,15 @@ func walkerInputs() []string {
 		"object Foo {\n  field f string {\n    rules {\n      minLength = 1\n      nope = 2\n    }\n  }\n}\n",
 		"object Foo {\n  field f bytes {\n    rules.minLength = 99999999999999999999\n  }\n}\n",
 		"object Foo {\n  field f float:FLOAT32 {\n    rules.minimum = 1.5e400\n  }\n}\n",
+		// strconv.ParseFloat(lit, 64) on long literals: range error from 2^1024 - 2^970 on, whatever the fraction; Unicode digits lex but do not parse
+		"object Foo {\n  field f float:FLOAT64 {\n    rules.minimum = 2" + strings.Repeat("0", 308) + "\n  }\n}\n",
+		"object Foo {\n  field f float:FLOAT64 {\n    rules.minimum = 1" + strings.Repeat("0", 308) + "\n  }\n}\n",
+		"object Foo {\n  field f float:FLOAT64 {\n    rules.maximum = 179769313486231580793728971405303415079934132710037826936173778980444968292764750946649017977587207096330286416692887910946555547851940402630657488671505820681908902000708383676273854845817711531764475730270069855571366959622842914819860834936475292719074168444365510704342711559699508093042880177904174497791." + strings.Repeat("9", 400) + "\n  }\n}\n",
+		"object Foo {\n  field f float:FLOAT64 {\n    rules.maximum = 179769313486231580793728971405303415079934132710037826936173778980444968292764750946649017977587207096330286416692887910946555547851940402630657488671505820681908902000708383676273854845817711531764475730270069855571366959622842914819860834936475292719074168444365510704342711559699508093042880177904174497792\n  }\n}\n",
+		"object Foo {\n  field f float:FLOAT32 {\n    rules.minimum = 1" + strings.Repeat("0", 60) + "\n  }\n}\n",
+		"object Foo {\n  field f float:FLOAT64 {\n    rules.multipleOf = " + strings.Repeat("0", 400) + "1.\n  }\n}\n",
+		"object Foo {\n  field f float:FLOAT64 {\n    rules.minimum = \u0663\n  }\n}\n",
+		"object Foo {\n  field f float:FLOAT64 {\n    rules.minimum = 1.\u0663\n  }\n}\n",
 		"object Foo {\n  field f bool {\n    rules.const = maybe\n  }\n}\n",
 		"object Foo {\n  field f date {\n    rules.minimum = 2020\n  }\n}\n",
 		"object Foo {\n  field f \"quoted\"\n}\n",
